@@ -268,6 +268,13 @@ func registerHost(in *Interp) {
 		if !ok {
 			in.unmodelled("strings.TrimPrefix with a symbolic prefix")
 		}
+		if isByteStr(a[0]) {
+			bs, _ := in.byteTerms(a[0])
+			if len(c) <= len(bs) && in.branch(in.byteStrEq(in.mkByteStr(bs[:len(c)]), c)) {
+				return in.mkByteStr(bs[len(c):])
+			}
+			return a[0]
+		}
 		switch x := a[0].(type) {
 		case string:
 			return strings.TrimPrefix(x, c)
@@ -284,11 +291,79 @@ func registerHost(in *Interp) {
 	}
 	H["path/filepath.Dir"] = func(in *Interp, a []Value, _ ssa.CallInstruction) Value { return filepath.Dir(str(a[0])) }
 	H["path/filepath.Base"] = func(in *Interp, a []Value, _ ssa.CallInstruction) Value { return filepath.Base(str(a[0])) }
+	// trimming a byte-vector string: the number of characters cut at either end depends on the
+	// content, so the path forks on it (ASCII only, as everything about byte vectors)
+	trimBytes := func(in *Interp, v Value, left, right bool, cut func(b *sym.Term) *sym.Term) Value {
+		bs, _ := in.byteTerms(v)
+		lo, hi := 0, len(bs)
+		if left {
+			for lo < hi && in.branch(cut(bs[lo])) {
+				lo++
+			}
+		}
+		if right {
+			for hi > lo && in.branch(cut(bs[hi-1])) {
+				hi--
+			}
+		}
+		return in.mkByteStr(bs[lo:hi])
+	}
+	isSpaceB := func(in *Interp) func(b *sym.Term) *sym.Term {
+		return func(b *sym.Term) *sym.Term {
+			return in.B.Or(in.B.Eq(b, in.B.Const(8, ' ')), in.B.And(in.B.ULe(in.B.Const(8, 9), b), in.B.ULe(b, in.B.Const(8, 13))))
+		}
+	}
+	inSet := func(in *Interp, set string) func(b *sym.Term) *sym.Term {
+		return func(b *sym.Term) *sym.Term {
+			var alts []*sym.Term
+			for i := 0; i < len(set); i++ {
+				alts = append(alts, in.B.Eq(b, in.B.Const(8, uint64(set[i]))))
+			}
+			return in.B.Or(alts...)
+		}
+	}
 	H["strings.TrimSpace"] = func(in *Interp, a []Value, _ ssa.CallInstruction) Value {
 		if s, ok := a[0].(string); ok {
 			return strings.TrimSpace(s)
 		}
+		if isByteStr(a[0]) {
+			return trimBytes(in, a[0], true, true, isSpaceB(in))
+		}
 		return &SymStr{Tag: "trimspace"}
+	}
+	for name, sides := range map[string][2]bool{"Trim": {true, true}, "TrimLeft": {true, false}, "TrimRight": {false, true}} {
+		name, sides := name, sides
+		H["strings."+name] = func(in *Interp, a []Value, site ssa.CallInstruction) Value {
+			set, ok := a[1].(string)
+			if isByteStr(a[0]) && ok {
+				for i := 0; i < len(set); i++ {
+					if set[i] >= 0x80 {
+						in.unmodelled("strings." + name + " with a non-ASCII cutset on a byte-vector string")
+					}
+				}
+				return trimBytes(in, a[0], sides[0], sides[1], inSet(in, set))
+			}
+			if v, ok := in.callThrough("strings."+name, nil, a); ok {
+				return v
+			}
+			in.unmodelled("strings." + name + " on a symbolic string")
+			return nil
+		}
+	}
+	H["strings.TrimSuffix"] = func(in *Interp, a []Value, site ssa.CallInstruction) Value {
+		suf, ok := a[1].(string)
+		if isByteStr(a[0]) && ok {
+			bs, _ := in.byteTerms(a[0])
+			if len(suf) <= len(bs) && in.branch(in.byteStrEq(in.mkByteStr(bs[len(bs)-len(suf):]), suf)) {
+				return in.mkByteStr(bs[:len(bs)-len(suf)])
+			}
+			return a[0]
+		}
+		if v, ok := in.callThrough("strings.TrimSuffix", nil, a); ok {
+			return v
+		}
+		in.unmodelled("strings.TrimSuffix on a symbolic string")
+		return nil
 	}
 	H["strings.Fields"] = func(in *Interp, a []Value, _ ssa.CallInstruction) Value {
 		s, ok := a[0].(string)
